@@ -928,7 +928,12 @@ def analyse(tp: Template, cfg: Cfg, *, known=None) -> dict:
                 obls.append(vacuity(tp, b, cfg))
         else:
             if b.status.get("ref") != "ok":
-                obls.append(Obl(tp.name, "ref", f"harness-error:{b.status.get('ref')}"))
+                accepted = [be for be in tp.backends if b.status.get(be) == "ok" or str(b.status.get(be, "")).startswith("unsupported")]
+                if str(b.status.get("ref", "")).startswith("refused") and accepted:
+                    # the documentation (REF) refuses this pipeline but the library builds it
+                    obls.append(Obl(tp.name, "ref-refuses-but-accepted", "violation", detail={"ref": b.status.get("ref"), "accepted_on": accepted}))
+                else:
+                    obls.append(Obl(tp.name, "ref", f"harness-error:{b.status.get('ref')}"))
             else:
                 obls.append(vacuity(tp, b, cfg))
                 if tp.mode == "ref":
